@@ -71,6 +71,7 @@ CHECKS['C05'] = dict(
         U('inpkg', 'TestVerifC05_SchemeHistory', q(8000, 4), q(160000, 8), pkg='algo'),
         U('inpkg', 'TestVerifC05_ItemCaches', q(32000, 16), q(640000, 16, cap=1500), pkg='src'),
         U('inpkg', 'TestVerifC05_ChunkCacheHistory', q(3200, 16), q(64000, 16, cap=1500), pkg='src'),
+        U('inpkg', 'TestVerifC05_SameSearchAgain', q(1600, 16, cap=600), q(32000, 16, cap=1800), pkg='src'),
     ])
 
 CHECKS['C01'] = dict(
@@ -263,6 +264,7 @@ CHECKS['C19'] = dict(
     units=[
         U('inpkg', 'TestVerifC19_Walker', q(3200, 16), q(48000, 16, cap=1800), pkg='src'),
         U('proc', 'TestVerifC19_ProcWalker', q(192, 16, cap=900), q(3200, 16, cap=3000), needs_fzf=True),
+        U('proc', 'TestVerifC19_ProcWalkerFilter', q(96, 8, cap=600), q(960, 8, cap=2400), needs_fzf=True),
     ])
 
 CHECKS['C08'] = dict(
